@@ -381,6 +381,58 @@ pub fn generate(seed: u64, n: usize, thorough: bool, corpus: Option<&str>) -> Ve
             cases.push(run(src, vec!["stream:tiny-milp".into()], &mut pool));
         }
     }
+    // ---- inputs that END right after a line break (empty / blank sources, every seed program cut after each of its line
+    //      breaks, constructs whose grammar swallows newlines left open): the parser's error glue must render them - deterministic
+    {
+        let mut k = 0usize;
+        let mut srcs: Vec<String> = vec!["".into(), "\n".into(), "   \n".into(), "\n\n\n".into(), "\t\n  \n".into(), " ".into(),
+            "min 1\ns.t.\n    x >= sum(i in 0..2) {\n".into(), "min 1\ns.t.\n    x >= max {\n".into(), "min 1\ns.t.\n    x >= 1\nwhere\n    let A = [1, 2,\n".into(),
+            "min 1\ns.t.\n    x >= 1\nwhere\n    let G = Graph {\n".into(), "min 1\ns.t.\n    x >= len([\n".into(), "min 1\ns.t.\n    x >= 1\nwhere\n    let G = Graph { A -> [\n".into(),
+            "min 1\ns.t.\n    x >= (1 +\n".into(), "min 1\ns.t.\n    x_{\n".into(), "min 1\ns.t.\n    x >= 1 for i in\n".into(), "min 1\ns.t.\n    x >= 1\ndefine\n    x as IntegerRange(\n".into(),
+            "min\n".into(), "min 1\ns.t.\n".into(), "min 1\ns.t.\n    x >= 1\nwhere\n".into(), "min 1\ns.t.\n    x >= 1\ndefine\n".into(), "min 1\ns.t.\n    x >= 1\nwhere\n    let a =\n".into()];
+        for p in SEED_PROGRAMS.iter() {
+            for (i, ch) in p.char_indices() { if ch == '\n' { srcs.push(p[..=i].to_string()); } }
+        }
+        for src in srcs { cases.push(run(src, vec!["stream:ends-after-line-break".into(), format!("ends-after-line-break:{}", k)], &mut pool)); k += 1; }
+    }
+    // ---- tableau start: standard forms with at least as many private positive columns as rows that do NOT cover every row
+    //      (one `<=` row owning several otherwise unused unbounded variables, next to equality / pinned rows owning none):
+    //      no basis can be read off, the tableau solver must fall back (two phases) - deterministic block, the same on every seed
+    {
+        let mut rr = Rng::new(0x7ab1ea5);
+        let mut k = 0usize;
+        let mut push = |src: String, cases: &mut Vec<Case>, pool: &mut Pool| { cases.push(run(src, vec!["stream:tableau-start".into(), format!("tableau-start:{}", k)], pool)); k += 1; };
+        // the two shapes of the description, verbatim
+        push("max x\ns.t.\n    y + z - t <= 5\n    x = 3\ndefine\n    x, y, z, t as NonNegativeReal\n".into(), &mut cases, &mut pool);
+        push("max x\ns.t.\n    y + z + u - t <= 5\n    x + w = 3\n    x - w = 1\ndefine\n    x, y, z, u, t, w as NonNegativeReal\n".into(), &mut cases, &mut pool);
+        for i in 0..30 {
+            let np = 2 + rr.below(3);                       // private columns of the first row
+            let ne = 1 + rr.below(2);                       // rows without a private column
+            let priv_vars: Vec<String> = (0..np).map(|j| format!("p{}", j)).collect();
+            let mut names = priv_vars.clone();
+            names.push("t".into());
+            let mut rows = format!("    {} - t <= {}\n", priv_vars.iter().map(|v| { let c = rr.range(1, 3); if c == 1 { v.clone() } else { format!("{} * {}", c, v) } }).collect::<Vec<_>>().join(" + "), rr.range(1, 9));
+            let objv;
+            if ne == 1 {
+                names.push("x".into());
+                rows.push_str(&format!("    {}x = {}\n", if rr.chance(1, 2) { "" } else { "2 * " }, rr.range(1, 6)));
+                objv = "x".to_string();
+            } else {
+                names.push("x".into()); names.push("w".into());
+                let (a, b) = (rr.range(2, 7), rr.range(0, 2));
+                rows.push_str(&format!("    x + w = {}\n    x - w = {}\n", a, b));
+                objv = if rr.chance(1, 2) { "x".to_string() } else { "x + w".to_string() };
+            }
+            if i % 5 == 4 { rows.push_str(&format!("    x >= {}\n", rr.range(0, 1))); }
+            let sense = if i % 3 == 2 { "min" } else { "max" };
+            let ty = if i % 4 == 3 { "Real" } else { "NonNegativeReal" };
+            let tyx = if i % 7 == 6 { "Real(0, 9)" } else { "NonNegativeReal" };
+            let others: Vec<String> = names.iter().filter(|n| *n != "x" && *n != "w").cloned().collect();
+            let xs: Vec<String> = names.iter().filter(|n| *n == "x" || *n == "w").cloned().collect();
+            let src = format!("{} {}\ns.t.\n{}define\n    {} as {}\n    {} as {}\n", sense, objv, rows, others.join(", "), ty, xs.join(", "), tyx);
+            push(src, &mut cases, &mut pool);
+        }
+    }
     let restarts = pool.restarts;
     drop(pool);
     // ---- the primitive operator core (in-process, catch_unwind): correspondence with Rooc/Pre/Prim.lean
